@@ -29,6 +29,26 @@ CHECKS = {
    text="The C03 history generator extended with broadcasts (3 confirm modes), restart-bit writes, application IIN changes; a model derived from the statement predicts every IIN bit of every newly built response (class bits from the ledger minus in-flight events, overflow latch, restart latch, broadcast pending, application bits) and is compared with the wire.",
    note="Re-sent fragments are not judged (C05). Callback/transmission order is reconstructed from the enter_*_confirm_wait callbacks. A confirm-mandatory broadcast indication after a confirmation the outstation was not waiting for is not judged (statement ambiguous).",
    design="DESIGN.md §5 C13"),
+ "C04": dict(
+   technique="stateful property-based testing against a reference model of select-before-operate derived from the statement",
+   text="Generated op sequences (SELECT / OPERATE in five near-miss variants / DIRECT_OPERATE / READ / WRITE / CONFIRM / malformed / broadcast / foreign master / link status / byte-identical repeats / time advances around the select timeout / reconnects, 4-bit sequence wrap, g12v1 and g41v1-4 with 1- and 2-byte prefixes, handler statuses per index) drive the real outstation session; a model written from the statement (armed / disarmed by any received application fragment) predicts for every OPERATE whether it must execute; compared both ways with ControlHandler::operate(SelectBeforeOperate) calls and with the echoed statuses.",
+   note="Not judged: OPERATE exactly at the timeout instant; the timeout base after a retransmitted SELECT. Trusted base: harness/wire codecs, virtual clock.",
+   design="DESIGN.md §5 C04"),
+ "C05": dict(
+   technique="property-based testing with a byte-identity oracle over everything the outstation has transmitted in the session",
+   text="Every function the outstation executes is placed in idle, mid multi-fragment series (k confirmed fragments) or inside a null/data unsolicited confirm wait, then repeated 1-4 times byte-identically with generated non-request steps in between; side-effecting callbacks must not fire again, the echo must equal the first reply, and anything re-sent in a confirm wait (echo of a repeated READ, unsolicited retry) must be byte-identical to a fragment already transmitted.",
+   note="A READ repeated from idle is answered afresh by design; identity is not asserted there.",
+   design="DESIGN.md §5 C05"),
+ "C11": dict(
+   technique="property-based testing against a mirror-database snapshot and a series-shape/gating oracle",
+   text="Generated databases (8 types, sparse indices to 65535, all static variations, arbitrary flags, runs long enough to split bit-packed headers), READs of 1-4 headers (class 0, classes, all-objects/ranges, specific variations, overlaps), tx buffers 249..2048, updates between any two fragments and per-fragment confirm behaviours; the concatenated series is compared object by object with the snapshot taken when the READ was sent (points per header, ascending, value, variation/promotion), and FIR/FIN/sequence/CON, confirm gating, abort and fresh-series rules are checked step by step on the virtual clock.",
+   note="Point add/remove during a series and READs beyond max_read_request_headers are outside the domain; type order inside a class-0 expansion is not asserted.",
+   design="DESIGN.md §5 C11"),
+ "C14": dict(
+   technique="stateful property-based testing: clauses U1-U8 over time-stamped unsolicited fragments (shares the C03 interpreter)",
+   text="The C03 history generator with unsolicited reporting on; exact virtual transmission times of every fragment are recorded by the in-memory physical layer, and the clauses U1-U8 of DESIGN.md §5 C14 (start-up nulls, enabled classes, one outstanding, identical retries within the limit, retry delay, DISABLE, deferred READ, progress) are evaluated after every step.",
+   note="'Up to' n retries: fewer is not a violation. Events exactly at a deadline instant are not judged. ENABLE/DISABLE take effect when their reply is observed.",
+   design="DESIGN.md §5 C14"),
 }
 NOT_YET = {
 }
